@@ -27,9 +27,9 @@ EASY_T = ([[a, b] for a in range(5) for b in range(5)] + [[e, 0] for e in range(
 def bounds(tier):
     if tier == "quick":
         return {"max_pos": 3, "max_neg": 3, "easy": EASY_Q,
-                "grids": ["irregular", "dyadic", "int", "float32", "mixed"], "targets": tc.EXTREME_TARGETS}
+                "grids": ["irregular", "dyadic", "int", "float32", "mixed", "uint"], "targets": tc.EXTREME_TARGETS}
     return {"max_pos": 5, "max_neg": 5, "easy": EASY_T,
-            "grids": ["irregular", "dyadic", "int", "negated", "ulp", "float32", "mixed"], "targets": tc.EXTREME_TARGETS}
+            "grids": ["irregular", "dyadic", "int", "negated", "ulp", "float32", "mixed", "uint"], "targets": tc.EXTREME_TARGETS}
 
 
 def work(tier, seed):
@@ -42,7 +42,7 @@ def work(tier, seed):
             if kind == "ulp" and sum(a + c for a, c in bl) > 8:
                 continue
             items.append({"blocks": [list(x) for x in bl], "grid": kind, "scalars": False,
-                          "small_easy": kind in ("float32", "mixed", "negated", "ulp"), "mutated": kind == "irregular"})
+                          "small_easy": kind in ("float32", "mixed", "negated", "ulp", "uint"), "mutated": kind == "irregular"})
     return items
 
 
